@@ -68,7 +68,9 @@ def stmts_for(form, op, a, b, idx):
 def build_case(desc):
     from .. import printer as P
     kind = desc[0]
-    lay = P.Layout(seed=int(core.sha(repr(desc))[:8], 16), p_under=0.3)
+    h = int(core.sha(repr(desc))[:8], 16)
+    # digit separators, zero padding; one case in three in the compact spelling (`a--3`, `x*-1`, `7%-2`), one in five with free white space (`- 5`)
+    lay = P.Layout(seed=h, p_under=0.3, p_zero=0.2 if h % 2 else 0.0, compact=(h % 3 == 0), p_ws=0.3 if h % 5 == 1 else 0.0)
     if kind == "batch":
         _, form, op, pairs = desc
         prog = []
